@@ -33,6 +33,8 @@ func init() {
 			"encoding/binary serialises fixed-size values field by field in declaration order without padding (its documented contract)",
 			"value-receiver accessors of modeling.Mesh (PrimitiveCount, Tri, HasFloat3Attribute) are pure functions of the mesh value",
 			"vector3 Add/Sub/Cross/Scale/DivByConstant/Normalized of EliCDavis/vector v1.8.0 have their published meaning (resolved by object, modelled by table in NRM-2)",
+			"LATCH-1 contract: any record with a stored (non-zero) normal means the mesh read back carries the normals attribute (today's behaviour; needed for stored normals to survive ReadMesh → WriteMesh)",
+			"HDR-FREE: the 80 header bytes of a binary STL file carry no format information (published format); the decode side may copy, log or format them but not decide on them",
 		},
 		Controls: controls,
 		Run:      run,
@@ -144,6 +146,9 @@ func run(c *props.Ctx) {
 		scatter(a, r, readMesh, read)
 	}
 	axisSlots(a, r)
+	if read != nil && readMesh != nil {
+		hdrFree(a, r, []*ssa.Function{read, readMesh})
+	}
 
 	runControls(a)
 
@@ -155,6 +160,8 @@ func run(c *props.Ctx) {
 	c.R.Floor("SYM-STRIDE", 3)
 	c.R.Floor("NRM-1", 3)
 	c.R.Floor("AXIS-1", 2)
+	c.R.Floor("HDR-FREE", 2)
+	c.R.Floor("LATCH-1", 1)
 }
 
 // ---------------------------------------------------------------------------
